@@ -274,7 +274,9 @@ def clause_env(spec_root):
         sys.path.insert(0, spec_root)
     import spec
     import pmutt.constants as const
-    env = {'spec': spec, 'const': const, 'np': np, 'log': np.log, 'exp': np.exp,
+    from scipy.integrate import quad as _quad
+    env = {'spec': spec, 'const': const,
+           'integral': lambda f, a, b: _quad(f, a, b)[0], 'np': np, 'log': np.log, 'exp': np.exp,
            'sqrt': np.sqrt, 'pi': math.pi,
            'implies': lambda a, b: (not a) or b, 'eq': approx_eq,
            'at': lambda r, i: r[i] if hasattr(r, '__len__') else r,
